@@ -76,3 +76,17 @@ Theorem C12_capacity_never_decreases_len_exact : forall cfg d qs ops1 ops2 st1 s
   worlds st1 !! i = Some (Some w1) -> worlds st2 !! i = Some (Some w2) -> w1 !! a = Some s1 -> w2 !! a = Some s2 ->
   cap s1 <= cap s2 /\ len s2 = length (ents s2) /\ len s2 <= cap s2.
 Proof. exact run_capacity_monotone. Qed.
+
+(* ---------------------------------------------------------------- the oracle's reading, whole histories *)
+From Gecs Require Import Spec OracleSim.
+
+(** "len() always equals the number of live entities, capacity() never decreases and is at least len(),
+    create_within_capacity succeeds exactly when len() < capacity() and otherwise returns its argument, create fails
+    only at the limit", as the specification oracle reads it on implementation traces.  For ALL histories of the core
+    language (OracleSim) the oracle accepts the whole run of the model. *)
+Theorem C12_the_model_refines_the_oracle : forall cfg d qs caps w ops,
+  wrapping cfg = false -> wf_decl d -> NoDup (da_id <$> wd_archs d) ->
+  length caps = length (wd_archs d) -> new_world (wd_archs d) caps = Ok w tt ->
+  forallb (l0_op d) ops = true ->
+  spec_check cfg d qs (ONew caps :: ops) (run cfg d qs (ONew caps :: ops)) = None.
+Proof. exact core_language_refines_the_oracle. Qed.
